@@ -38,14 +38,18 @@ fn table_total(entries: &'static [CommandNameEntry]) {
 }
 /// entries lo..hi of the table (one harness per slice keeps each query small)
 fn table_range(entries: &'static [CommandNameEntry], lo: usize, hi: usize) {
-    // case variants: as written, UPPER, lower-with-first-flipped, alternating (chosen by a symbolic selector among
-    // four concrete masks: fully symbolic letters in front of ~150 case-insensitive comparisons did not finish)
-    let mask: u32 = match kani::any::<u8>() % 4 {
-        0 => 0,
-        1 => 0xFFFF_FFFF,
-        2 => 1,
-        _ => 0xAAAA_AAAA,
-    };
+    // case variants: as written, UPPER, first letter flipped, alternating -- enumerated concretely (symbolic letters,
+    // and even a symbolic choice among these four masks, in front of ~150 case-insensitive comparisons did not
+    // finish in 20 min)
+    let masks: [u32; 4] = [0, 0xFFFF_FFFF, 1, 0xAAAA_AAAA];
+    let mut mi = 0;
+    while mi < 4 {
+        table_range_mask(entries, lo, hi, masks[mi]);
+        mi += 1;
+    }
+    kani::cover!(true);
+}
+fn table_range_mask(entries: &'static [CommandNameEntry], lo: usize, hi: usize, mask: u32) {
     let mut e = lo;
     while e < hi && e < entries.len() {
         let mut k = 0;
@@ -72,7 +76,6 @@ fn table_range(entries: &'static [CommandNameEntry], lo: usize, hi: usize) {
         }
         e += 1;
     }
-    kani::cover!(mask == 0xFFFF_FFFF);
 }
 
 macro_rules! names_slice {
